@@ -52,6 +52,23 @@ def make_iter(ns_name, items, raise_at=None, marks=None, pause=0.0):
     return agen()
 
 
+class Reiterable:
+    """a producer that can be iterated again (a fresh generator per iteration): what a response object that serves several connections needs"""
+    def __init__(self, make):
+        self.make = make
+
+    def __iter__(self):
+        return self.make()
+
+    def __aiter__(self):
+        return self.make()
+
+
+def producer(ns_name, r, items, marks):
+    make = lambda: make_iter(ns_name, items, r.get("raise_at"), marks, pause=r.get("pause", 0.0))  # noqa: E731
+    return Reiterable(make) if r.get("reiterable") else make()
+
+
 def _copy(x):
     return dict(x) if isinstance(x, dict) else x
 
@@ -90,11 +107,11 @@ def response_from(ns, r, marks=None):
         resp = ns.RedirectResponse(target, **kw)
     elif kind == "Stream":
         extra = {"content_type": r["content_type"]} if r.get("content_type") else {}
-        resp = ns.StreamResponse(make_iter(name, r["chunks"], r.get("raise_at"), marks), **kw, **extra)
+        resp = ns.StreamResponse(producer(name, r, r["chunks"], marks), **kw, **extra)
     elif kind == "SSE":
         extra = {k: r[k] for k in ("ping_interval", "charset") if r.get(k) is not None}
         extra.setdefault("ping_interval", 1000.0)
-        resp = ns.SendEventResponse(make_iter(name, r["events"], r.get("raise_at"), marks, pause=r.get("pause", 0.0)), **kw, **extra)
+        resp = ns.SendEventResponse(producer(name, r, r["events"], marks), **kw, **extra)
     elif kind == "File":
         extra = {k: r[k] for k in ("content_type", "download_name", "chunk_size") if r.get(k) is not None}
         kw.pop("status_code", None)
